@@ -110,7 +110,7 @@ FIXED_MAIN = [("good", ["assemble", "P"]), ("data", ["assemble", "--big-stack", 
               ("good", ["preprocess", "P"]), ("data", ["preprocess", "--obfuscate", "P"]), ("hex", ["disassemble", "P"]),
               ("unwritable", ["assemble", "P"]), ("bad", ["assemble", "P"]), ("missing", ["preprocess", "P"]),
               ("notdir", ["P"]), ("toolong", ["assemble", "P"]), ("badinclude", ["P"]), ("notdir", ["disassemble", "P"]),
-              ("dir", ["debug", "P"]), ("nonascii", ["preprocess", "P"])]
+              ("dir", ["debug", "P"]), ("nonascii", ["preprocess", "P"]), ("hexwide", ["disassemble", "P"]), ("hex", ["disassemble", "-"])]
 
 
 INIT_ALIASES = {"rt", "fp", "sp", "pc_ret", "fp_alt"}
@@ -204,7 +204,9 @@ def init_values(argv):
 def main_oracle(rng, root, fixed=None):
     """hera.main.main on an argument vector with a real file: exit status, streams, no traceback."""
     files = {"good": "SET(R1, 5)\nprint_reg(R1)\nHALT()\n", "bad": "SET(R1, 5\nFOO(2)\n", "warn": "SET(R1, 017)\n",
-             "data": "DLABEL(x)\nINTEGER(5)\nLP_STRING(\"hi\")\nSET(R1, x)\n", "empty": "", "hex": "e1ff\nzz\n1234\n"}
+             "data": "DLABEL(x)\nINTEGER(5)\nLP_STRING(\"hi\")\nSET(R1, x)\n", "empty": "", "hex": "e1ff\nzz\n1234\n",
+             # lines int(..., 16) accepts that are no 16-bit words (seed C18g: `disassemble` let the range error through)
+             "hexwide": "e1ff\n10000\n-1\n0x12\n+7\n 3180 \n1_0\nfffff\n"}
     kind = fixed[0] if fixed else rng.choice(sorted(files) + ["missing", "dir", "nonascii", "unwritable", "notdir", "toolong", "badinclude"])
     p = os.path.join(root, kind + ".hera")
     if kind == "notdir":
@@ -268,7 +270,7 @@ def main_oracle(rng, root, fixed=None):
             return "%s is a usage error: exit status %r, stdout %r, stderr %r" % (what, code, out[:80], err[:80]), kind
     elif pr["kind"] == "run":
         debug = pr["mode"] == "debug"
-        broken = kind in ("bad", "missing", "dir", "nonascii", "hex", "notdir", "toolong", "badinclude") and pr["mode"] != "disassemble"
+        broken = kind in ("bad", "missing", "dir", "nonascii", "hex", "hexwide", "notdir", "toolong", "badinclude") and pr["mode"] != "disassemble"
         if pr["path"] == "-":
             broken, kind = False, "empty"      # standard input, which is empty here
         elif pr["path"] != p:
